@@ -40,53 +40,63 @@ type conflictEdit struct {
 	// Benign: the edited set is still mergeable by the statement's rules (every pair of declarations identical
 	// or disjoint): it must be accepted in every order with the same facts
 	Benign bool
+	// NodeHiding: merged with the node-hiding merger (the statement holds for every merger the gateway offers)
+	NodeHiding bool
 }
 
 // conflictEdits lists one operator per conflict kind of the statement.  Fresh names only.
 var conflictEdits = []conflictEdit{
-	{"dup-root-field-query", "extend type Query { dupRoot: String }", "extend type Query { dupRoot: String }", "", false},
-	{"dup-root-field-mutation", "type Mutation { dupMut: String }", "type Mutation { dupMut: String }", "", false},
-	{"dup-root-field-underscore", "extend type Query { _dupRoot: String }", "extend type Query { _dupRoot: String }", "", false},
-	{"kind-object-vs-enum", "type Clash { a: Int }", "enum Clash { A B }", "", false},
-	{"kind-underscore-object-vs-enum", "type _Clash { a: Int }", "enum _Clash { A B }", "", false},
-	{"kind-object-vs-input", "type Clash { a: Int }", "input Clash { a: Int }", "", false},
-	{"kind-object-vs-interface", "type Clash { a: Int }", "interface Clash { a: Int }", "", false},
-	{"kind-object-vs-scalar", "type Clash { a: Int }", "scalar Clash", "", false},
-	{"kind-object-vs-union", "type Clash { a: Int }\ntype ClashM { a: Int }", "type ClashM { a: Int }\nunion Clash = ClashM", "", false},
-	{"kind-enum-vs-scalar", "enum Clash { A }", "scalar Clash", "", false},
-	{"node-ness-mismatch", "type Half implements Node { id: ID! }", "type Half { id: ID! x: Int }", "", false},
-	{"node-ness-mismatch-interface", "interface HalfI implements Node { id: ID! a: Int }\ntype HalfIM implements HalfI & Node { id: ID! a: Int }", "interface HalfI { id: ID! }", "", false},
-	{"node-type-field-twice", "type Twice implements Node { id: ID! shared: Int }", "type Twice implements Node { id: ID! shared: Int }", "", false},
-	{"value-type-partial-overlap", "type Part { a: Int b: Int }", "type Part { a: Int c: Int }", "", false},
-	{"value-type-partial-overlap-with-id", "type PartId { id: ID! a: Int }", "type PartId { a: Int c: Int }", "", false},
-	{"value-type-partial-overlap-with-id-rev", "type PartId { a: Int c: Int }", "type PartId { id: ID! a: Int }", "", false},
-	{"value-type-subset", "type Sub { a: Int b: Int }", "type Sub { a: Int }", "", false},
-	{"value-type-extra-id-only", "type Xid { id: ID! a: Int }", "type Xid { a: Int }", "", false},
-	{"input-subset", "input SubIn { a: Int b: Int }", "input SubIn { a: Int }", "", false},
-	{"input-partial-overlap", "input PartIn { a: Int b: Int }", "input PartIn { a: Int c: Int }", "", false},
-	{"shared-id-field-different-type", "type ShId { id: ID! a: Int }", "type ShId { id: String a: Int }", "", false},
-	{"shared-id-field-different-type-only-id", "type ShIdOnly { id: ID! }", "type ShIdOnly { id: Int }", "", false},
-	{"shared-id-field-different-nullability", "type ShIdN { id: ID! a: Int }", "type ShIdN { id: ID a: Int }", "", false},
-	{"shared-id-field-different-arg-set", "type ShIdA { id: ID! a: Int }", "type ShIdA { id(x: Int): ID! a: Int }", "", false},
-	{"input-shared-id-field-different-type", "input ShIdIn { id: ID! a: Int }", "input ShIdIn { id: Int a: Int }", "", false},
-	{"shared-field-different-list-default", "type ShLd { a(x: [String!] = [\"name\"]): Int }", "type ShLd { a(x: [String!] = [\"createdAt\"]): Int }", "", false},
-	{"shared-input-field-different-list-default", "input ShLdIn { s: [String!] = [\"a\"] }", "input ShLdIn { s: [String!] = [\"b\"] }", "", false},
-	{"shared-input-field-different-object-default", "input PtD { x: Int }\ninput ShOdIn { p: PtD = {x: 1} }", "input PtD { x: Int }\ninput ShOdIn { p: PtD = {x: 2} }", "", false},
-	{"shared-field-different-object-default", "input PtE { x: Int }\ntype ShOd { a(p: PtE = {x: 1}): Int }", "input PtE { x: Int }\ntype ShOd { a(p: PtE = {x: 2}): Int }", "", false},
+	{"dup-root-field-query", "extend type Query { dupRoot: String }", "extend type Query { dupRoot: String }", "", false, false},
+	{"dup-root-field-mutation", "type Mutation { dupMut: String }", "type Mutation { dupMut: String }", "", false, false},
+	{"dup-root-field-underscore", "extend type Query { _dupRoot: String }", "extend type Query { _dupRoot: String }", "", false, false},
+	{"kind-object-vs-enum", "type Clash { a: Int }", "enum Clash { A B }", "", false, false},
+	{"kind-underscore-object-vs-enum", "type _Clash { a: Int }", "enum _Clash { A B }", "", false, false},
+	{"kind-object-vs-input", "type Clash { a: Int }", "input Clash { a: Int }", "", false, false},
+	{"kind-object-vs-interface", "type Clash { a: Int }", "interface Clash { a: Int }", "", false, false},
+	{"kind-object-vs-scalar", "type Clash { a: Int }", "scalar Clash", "", false, false},
+	{"kind-object-vs-union", "type Clash { a: Int }\ntype ClashM { a: Int }", "type ClashM { a: Int }\nunion Clash = ClashM", "", false, false},
+	{"kind-enum-vs-scalar", "enum Clash { A }", "scalar Clash", "", false, false},
+	{"node-ness-mismatch", "type Half implements Node { id: ID! }", "type Half { id: ID! x: Int }", "", false, false},
+	{"node-ness-mismatch-interface", "interface HalfI implements Node { id: ID! a: Int }\ntype HalfIM implements HalfI & Node { id: ID! a: Int }", "interface HalfI { id: ID! }", "", false, false},
+	{"node-type-field-twice", "type Twice implements Node { id: ID! shared: Int }", "type Twice implements Node { id: ID! shared: Int }", "", false, false},
+	{"value-type-partial-overlap", "type Part { a: Int b: Int }", "type Part { a: Int c: Int }", "", false, false},
+	{"value-type-partial-overlap-with-id", "type PartId { id: ID! a: Int }", "type PartId { a: Int c: Int }", "", false, false},
+	{"value-type-partial-overlap-with-id-rev", "type PartId { a: Int c: Int }", "type PartId { id: ID! a: Int }", "", false, false},
+	{"value-type-subset", "type Sub { a: Int b: Int }", "type Sub { a: Int }", "", false, false},
+	{"value-type-extra-id-only", "type Xid { id: ID! a: Int }", "type Xid { a: Int }", "", false, false},
+	{"input-subset", "input SubIn { a: Int b: Int }", "input SubIn { a: Int }", "", false, false},
+	{"input-partial-overlap", "input PartIn { a: Int b: Int }", "input PartIn { a: Int c: Int }", "", false, false},
+	{"shared-id-field-different-type", "type ShId { id: ID! a: Int }", "type ShId { id: String a: Int }", "", false, false},
+	{"shared-id-field-different-type-only-id", "type ShIdOnly { id: ID! }", "type ShIdOnly { id: Int }", "", false, false},
+	{"shared-id-field-different-nullability", "type ShIdN { id: ID! a: Int }", "type ShIdN { id: ID a: Int }", "", false, false},
+	{"shared-id-field-different-arg-set", "type ShIdA { id: ID! a: Int }", "type ShIdA { id(x: Int): ID! a: Int }", "", false, false},
+	{"input-shared-id-field-different-type", "input ShIdIn { id: ID! a: Int }", "input ShIdIn { id: Int a: Int }", "", false, false},
+	{"shared-field-different-list-default", "type ShLd { a(x: [String!] = [\"name\"]): Int }", "type ShLd { a(x: [String!] = [\"createdAt\"]): Int }", "", false, false},
+	{"shared-input-field-different-list-default", "input ShLdIn { s: [String!] = [\"a\"] }", "input ShLdIn { s: [String!] = [\"b\"] }", "", false, false},
+	{"shared-input-field-different-object-default", "input PtD { x: Int }\ninput ShOdIn { p: PtD = {x: 1} }", "input PtD { x: Int }\ninput ShOdIn { p: PtD = {x: 2} }", "", false, false},
+	{"shared-field-different-object-default", "input PtE { x: Int }\ntype ShOd { a(p: PtE = {x: 1}): Int }", "input PtE { x: Int }\ntype ShOd { a(p: PtE = {x: 2}): Int }", "", false, false},
 	{Kind: "benign-identical-plain-type", A: "type Same { a: Int b: String }", B: "type Same { a: Int b: String }", Benign: true},
 	{Kind: "benign-disjoint-plain-type", A: "type Dj { a: Int }", B: "type Dj { b: String }", Benign: true},
 	{Kind: "benign-disjoint-identical-triple", A: "type Tri { x: Int }", B: "type Tri { y: Int }", C: "type Tri { x: Int }", Benign: true},
 	{Kind: "benign-identical-disjoint-triple-input", A: "input TriIn { x: Int }", B: "input TriIn { x: Int }", C: "input TriIn { y: Int }", Benign: true},
 	{Kind: "root-node-relay-vs-plain", A: "", B: "REPLACE-RELAY-NODE-BY-PLAIN-FIELD"},
-	{"shared-field-different-type", "type Sh { a: Int }", "type Sh { a: String }", "", false},
-	{"shared-field-different-nullability", "type Sh { a: Int }", "type Sh { a: Int! }", "", false},
-	{"shared-field-different-list", "type Sh { a: [Int] }", "type Sh { a: Int }", "", false},
-	{"shared-field-different-arg-type", "type Sh { a(x: Int): Int }", "type Sh { a(x: String): Int }", "", false},
-	{"shared-field-different-arg-set", "type Sh { a: Int }", "type Sh { a(x: Int): Int }", "", false},
-	{"shared-field-different-arg-default", "type Sh { a(x: Int = 1): Int }", "type Sh { a(x: Int = 2): Int }", "", false},
-	{"shared-input-field-different-type", "input ShIn { a: Int }", "input ShIn { a: String }", "", false},
-	{"union-different-members", "type Ua { a: Int }\ntype Ub { a: Int }\nunion Un = Ua | Ub", "type Ua { a: Int }\ntype Ub { a: Int }\nunion Un = Ua", "", false},
-	{"interface-field-different-type", "interface If { a: Int }\ntype IfM implements If { a: Int }", "interface If { a: String }\ntype IfM2 implements If { a: String }", "", false},
+	{Kind: "root-node-relay-vs-plain(node-hiding merger)", A: "", B: "REPLACE-RELAY-NODE-BY-PLAIN-FIELD", NodeHiding: true},
+	{Kind: "root-node-relay-vs-other-signature(node-hiding merger)", A: "", B: "REPLACE-RELAY-NODE-BY-OTHER-SIGNATURE", NodeHiding: true},
+	{Kind: "root-node-relay-vs-other-signature", A: "", B: "REPLACE-RELAY-NODE-BY-OTHER-SIGNATURE"},
+	{Kind: "dup-root-field-query(node-hiding merger)", A: "extend type Query { dupRootH: String }", B: "extend type Query { dupRootH: String }", NodeHiding: true},
+	// two services agree, a third one conflicts with what the two became
+	{Kind: "kind-triple-object-object-enum", A: "type Clash3 { a: Int }", B: "type Clash3 { a: Int }", C: "enum Clash3 { A B }"},
+	{Kind: "node-ness-triple-plain-plain-node", A: "type Half3 { id: ID! x: Int }", B: "type Half3 { id: ID! x: Int }", C: "type Half3 implements Node { id: ID! }"},
+	{Kind: "shared-field-triple-different-type", A: "type Sh3 { a: Int }", B: "type Sh3 { a: Int }", C: "type Sh3 { a: String }"},
+	{"shared-field-different-type", "type Sh { a: Int }", "type Sh { a: String }", "", false, false},
+	{"shared-field-different-nullability", "type Sh { a: Int }", "type Sh { a: Int! }", "", false, false},
+	{"shared-field-different-list", "type Sh { a: [Int] }", "type Sh { a: Int }", "", false, false},
+	{"shared-field-different-arg-type", "type Sh { a(x: Int): Int }", "type Sh { a(x: String): Int }", "", false, false},
+	{"shared-field-different-arg-set", "type Sh { a: Int }", "type Sh { a(x: Int): Int }", "", false, false},
+	{"shared-field-different-arg-default", "type Sh { a(x: Int = 1): Int }", "type Sh { a(x: Int = 2): Int }", "", false, false},
+	{"shared-input-field-different-type", "input ShIn { a: Int }", "input ShIn { a: String }", "", false, false},
+	{"union-different-members", "type Ua { a: Int }\ntype Ub { a: Int }\nunion Un = Ua | Ub", "type Ua { a: Int }\ntype Ub { a: Int }\nunion Un = Ua", "", false, false},
+	{"interface-field-different-type", "interface If { a: Int }\ntype IfM implements If { a: Int }", "interface If { a: String }\ntype IfM2 implements If { a: String }", "", false, false},
 }
 
 // pairs per base: all ordered pairs (a,b), a != b, k <= 4 -> <= 12 ; perms <= 24
@@ -142,13 +152,17 @@ func applyEdit(spec rig.UniverseSpec, e conflictEdit, a, b int) (rig.UniverseSpe
 	if e.A != "" {
 		out.Services[a].SDL = fix(out.Services[a].SDL, e.A)
 	}
-	if e.B == "REPLACE-RELAY-NODE-BY-PLAIN-FIELD" {
-		// service a keeps the Relay entry point node(id: ID!): Node, service b declares a plain root field of that name
+	if strings.HasPrefix(e.B, "REPLACE-RELAY-NODE-BY-") {
+		// service a keeps the Relay entry point node(id: ID!): Node, service b declares another root field of that name
 		const relay = "  node(id: ID!): Node\n"
 		if !strings.Contains(out.Services[a].SDL, relay) || !strings.Contains(out.Services[b].SDL, relay) {
 			return out, false
 		}
-		out.Services[b].SDL = strings.Replace(out.Services[b].SDL, relay, "  node: String\n", 1)
+		repl := "  node: String\n"
+		if e.B == "REPLACE-RELAY-NODE-BY-OTHER-SIGNATURE" {
+			repl = "  node(name: String!): String\n"
+		}
+		out.Services[b].SDL = strings.Replace(out.Services[b].SDL, relay, repl, 1)
 	} else {
 		out.Services[b].SDL = fix(out.Services[b].SDL, e.B)
 	}
@@ -207,7 +221,7 @@ func (p c05) Gen(c *run.Ctx, idx int) (json.RawMessage, error) {
 		e := conflictEdits[ei]
 		spec, ok := applyEdit(cu.spec, e, pairs[pr][0], pairs[pr][1])
 		if !ok {
-			if e.C != "" || e.B == "REPLACE-RELAY-NODE-BY-PLAIN-FIELD" {
+			if e.C != "" || strings.HasPrefix(e.B, "REPLACE-RELAY-NODE-BY-") {
 				return nil, nil // not applicable to this base (fewer than 3 services / a service without node)
 			}
 			return nil, fmt.Errorf("conflict edit %s produced an invalid service SDL", e.Kind)
@@ -215,6 +229,7 @@ func (p c05) Gen(c *run.Ctx, idx int) (json.RawMessage, error) {
 		mc.U = spec
 		mc.Edit = e.Kind
 		mc.Benign = e.Benign
+		mc.Sanitize = e.NodeHiding
 		mc.EditAt = []int{pairs[pr][0], pairs[pr][1]}
 	}
 	return mustJSON(mc), nil
@@ -268,7 +283,7 @@ func (p c05) Exec(c *run.Ctx, idx int, raw json.RawMessage) []run.Result {
 		tags["base"] = true
 	}
 	res.Tags = sortedKeys(tags)
-	mo := doMerge(sp.U.Services, sp.Perm, false)
+	mo := doMerge(sp.U.Services, sp.Perm, sp.Sanitize)
 	fail := func(sym, msg string) []run.Result {
 		res.Verdict, res.Symptom, res.Message = run.Violated, sym, msg
 		return []run.Result{res}
@@ -284,7 +299,7 @@ func (p c05) Exec(c *run.Ctx, idx int, raw json.RawMessage) []run.Result {
 		if mo.err == nil {
 			// show which side was silently preferred
 			var pref []string
-			for _, tn := range []string{"Clash", "Half", "Twice", "Part", "PartIn", "Sh", "ShIn", "Un", "If", "PartId", "Sub", "Xid", "SubIn"} {
+			for _, tn := range []string{"Clash", "Half", "Twice", "Part", "PartIn", "Sh", "ShIn", "Un", "If", "PartId", "Sub", "Xid", "SubIn", "Clash3", "Half3", "Sh3"} {
 				if d := mo.res.Schema.Types[tn]; d != nil {
 					var fs []string
 					for _, f := range d.Fields {
